@@ -152,7 +152,10 @@ def predicate(line, obs, allow_known=False):
             v, c = int(op[1]), int(op[2])
             tot = sum(cc for _, cc in vals)
             head, res = o.split("/")
-            t0, t1, mxeq = head.split(",")
+            t0, t1, mxeq, same = head.split(",")
+            if same != "1":
+                return (f"the histogram obtained by Import(Export(h)) changed when {v} was recorded into the original "
+                        "afterwards (its distribution / Min / Max moved): the copy is not independent")
             if int(t0) != tot or int(t1) != tot:
                 return (f"Import(Export(h)) held {t0} occurrences and {t1} after {v} was recorded into the original; "
                         f"the exported state had {tot} (the copy is not independent of the original)")
